@@ -1728,9 +1728,14 @@ func (h *fsmHandler) openconfirm(ctx context.Context) (bgp.FSMState, *fsmStateRe
 				if m.Header.Type == bgp.BGP_MSG_KEEPALIVE {
 					return bgp.BGP_FSM_ESTABLISHED, newfsmStateReason(fsmOpenMsgNegotiated, nil, nil)
 				}
-				// send notification ?
-				fsm.conn.Close()
-				return bgp.BGP_FSM_IDLE, newfsmStateReason(fsmInvalidMsg, nil, nil)
+				if m.Header.Type == bgp.BGP_MSG_NOTIFICATION {
+					fsm.conn.Close()
+					return bgp.BGP_FSM_IDLE, newfsmStateReason(fsmInvalidMsg, nil, nil)
+				}
+				// RFC 6608 Section 4: any other message is unexpected here
+				n := bgp.NewBGPNotificationMessage(bgp.BGP_ERROR_FSM_ERROR, bgp.BGP_ERROR_SUB_RECEIVE_UNEXPECTED_MESSAGE_IN_OPENCONFIRM_STATE, nil)
+				_ = fsm.sendNotification(fsm.conn, n)
+				return bgp.BGP_FSM_IDLE, newfsmStateReason(fsmInvalidMsg, n, nil)
 			case *bgp.MessageError:
 				n := bgp.NewBGPNotificationMessage(m.TypeCode, m.SubTypeCode, m.Data)
 				_ = fsm.sendNotification(fsm.conn, n)
@@ -1888,6 +1893,10 @@ func (h *fsmHandler) recvMessageloop(ctx context.Context, conn net.Conn, holdtim
 				doCallback := true
 				m := fmsg.MsgData.(*bgp.BGPMessage)
 				switch m.Header.Type {
+				case bgp.BGP_MSG_OPEN:
+					// RFC 6608 Section 4: an OPEN is unexpected on an established session
+					nonblockSendChannel(h.fsm.notification, bgp.NewBGPNotificationMessage(bgp.BGP_ERROR_FSM_ERROR, bgp.BGP_ERROR_SUB_RECEIVE_UNEXPECTED_MESSAGE_IN_ESTABLISHED_STATE, nil))
+					return
 				case bgp.BGP_MSG_ROUTE_REFRESH:
 					// nothing to do here
 				case bgp.BGP_MSG_UPDATE:
